@@ -19,6 +19,7 @@ import MocVerif.Props.C01
 import MocVerif.Props.C04
 import MocVerif.Props.C07
 import MocVerif.Props.C18
+import MocVerif.Lemmas.ValidOps
 
 namespace Moc.Cli.C19
 open Moc Moc.Cli Moc.C01
@@ -83,6 +84,32 @@ theorem cli_op2_width_independent (q : Qty) (op : Op2) (wl wr : Nat) (l r : Src)
   have a2 : 64 - max wl wr + (max wl wr - wr) = 64 - wr := by
     have := Nat.le_max_right wl wr; omega
   rw [div_pow_div, div_pow_div, a1, a2]
+
+/-- The deepest levels of the three quantities differ by exactly the width difference for the index
+    widths the tool handles (so that shifting by `wt − wf` bits is the change of resolution). -/
+theorem promotion_table :
+    ∀ q ∈ [Params.hpx, Params.time, Params.freq], ∀ p ∈ [(16, 32), (16, 64), (32, 64), (16, 16), (32, 32), (64, 64)],
+      q.dim * q.maxDepth p.2 = q.dim * q.maxDepth p.1 + (p.2 - p.1) := by decide
+
+theorem opSem_ff (op : Op2) : ¬ opSem op False False := by
+  cases op <;> simp [opSem]
+
+/-- **The result of `moc op` is a valid MOC** of the wider index type at depth `max(d_l, d_r)`:
+    canonical, inside the domain, aligned on the cells of that depth — for valid inputs of any two
+    widths related as in `promotion_table`. -/
+theorem cli_op2_valid (q : Qty) (op : Op2) (wl wr dl dr : Nat) (l r : Src)
+    (hl : l.HintOkAll) (hr : r.HintOkAll)
+    (vl : Valid q wl dl l.items) (vr : Valid q wr dr r.items)
+    (hdl : dl ≤ q.maxDepth wl) (hdr : dr ≤ q.maxDepth wr)
+    (kl : q.dim * q.maxDepth (max wl wr) = q.dim * q.maxDepth wl + (max wl wr - wl))
+    (kr : q.dim * q.maxDepth (max wl wr) = q.dim * q.maxDepth wr + (max wl wr - wr)) :
+    Valid q (max wl wr) (max dl dr) (op2 q op wl l wr r).2.items := by
+  have sem := cli_op2_sem q op wl wr l r hl hr vl.1 vr.1
+  have sl := valid_scale q wl (max wl wr) dl l.items hdl kl vl
+  have sr := valid_scale q wr (max wl wr) dr r.items hdr kr vr
+  refine valid_binary q (max wl wr) dl dr _ _ _ (opSem op) (opSem_ff op) sl sr sem.2.1 ?_
+  intro x
+  rw [sem.2.2.2 x, mem_scale, mem_scale]
 
 /-- **`moc op complement`**. -/
 theorem cli_complement_sem (q : Qty) (w : Nat) (s : Src) (h0 : 0 < q.nCellsMax w) (cs : Canon s.items)
